@@ -105,7 +105,7 @@ def check(ctx):
            "control cannot fall off the end of rank: unknown methods are rejected" if not fall else
            "rank can fall through and return None for an unknown method", clause="all rank methods")
     branches = [n for n in rank.node.body if isinstance(n, ast.If) and "method" in norm(n.test)]
-    ctx.count("rank method branches", len(branches), 3)
+    ctx.count("rank method branches", len(branches), 1)
     for br in branches:
         stores = []
         retn = [s for s in br.body if isinstance(s, ast.Return)]
